@@ -207,6 +207,8 @@ def build():
         params={"cell_str": "str"},
         requires=["len(cell_str) <= 4000"],
         raises={"IndexError": None},
+        # accepted strings are exactly those with an A1 prefix (spec regex written here: upper-case ASCII letters)
+        ensures=["cell_str == '' or inre_prefix(cell_str, '[$]?[A-Z]{1,3}[$]?\\d+')"],
         unroll={1: 3},
         result=("tuple", ["int", "int"]),
     ))
@@ -214,6 +216,7 @@ def build():
         "xrefs:xl_col_to_offset", label="total",
         params={"col_str": "str"},
         raises={"IndexError": None},
+        ensures=["col_str == '' or inre_prefix(col_str, '[$]?[A-Z]{1,3}')"],
         unroll={1: 3},
         result="int",
     ))
